@@ -19,7 +19,57 @@ impl W {
     }
 }
 
+/// Literal-directed walking: strings taken from the grammar text that the walk tries to spell
+/// (so that keywords, lazy-lexeme triggers and enum values are actually reached in free text).
+struct Hints {
+    all: Vec<Vec<u8>>,
+    cur: Option<(Vec<u8>, usize)>,
+    pct: usize,
+}
+
 /// Pick the next token from the mask of a side engine (never the engine under test).
+fn pick_h(side: &mut Matcher, rng: &mut Rng, voc: &Vocab, eos_pct: usize, hints: &mut Hints) -> Option<u32> {
+    let eos = voc.eos;
+    let m = side.compute_mask().ok()?;
+    let ids = mask_ids(&m);
+    if ids.is_empty() {
+        return None;
+    }
+    if hints.cur.is_none() && !hints.all.is_empty() && rng.chance(hints.pct, 100) {
+        let h = rng.pick(&hints.all).clone();
+        // stop somewhere inside the hint, most often near its end
+        let stop = if rng.chance(25, 100) { h.len() } else { 1 + rng.below(h.len()) };
+        hints.cur = Some((h[..stop].to_vec(), 0));
+    }
+    if let Some((h, pos)) = hints.cur.clone() {
+        let rest = &h[pos..];
+        let cands: Vec<u32> = ids
+            .iter()
+            .cloned()
+            .filter(|&t| {
+                let b = &voc.words[t as usize];
+                !b.is_empty() && b[0] != 0xFF && rest.starts_with(b)
+            })
+            .collect();
+        if cands.is_empty() {
+            hints.cur = None;
+        } else {
+            let t = *rng.pick(&cands);
+            let np = pos + voc.words[t as usize].len();
+            hints.cur = if np >= h.len() { None } else { Some((h, np)) };
+            return Some(t);
+        }
+    }
+    if ids.contains(&eos) && (ids.len() == 1 || rng.chance(eos_pct, 100)) {
+        return Some(eos);
+    }
+    let non: Vec<u32> = ids.into_iter().filter(|&t| t != eos).collect();
+    if non.is_empty() {
+        return Some(eos);
+    }
+    Some(*rng.pick(&non))
+}
+
 fn pick(side: &mut Matcher, rng: &mut Rng, eos: u32, eos_pct: usize) -> Option<u32> {
     let m = side.compute_mask().ok()?;
     let ids = mask_ids(&m);
@@ -179,9 +229,17 @@ fn run_episode(ep: &Value, epno: usize, cache: &mut HashMap<String, Vocab>, tr: 
     let mut cfg_json = vec![];
     for cd in ep["cfgs"].as_array().expect("cfgs") {
         let key = cd["vocab"].to_string();
-        let voc = cache.entry(key).or_insert_with(|| from_desc(&cd["vocab"])).clone();
+        let voc = if cd["vocab"]["kind"] == "lang" {
+            vh::sess::lang_vocab(&ep["gram"], &cd["vocab"], ep["seed"].as_u64().unwrap_or(0))
+        } else {
+            cache.entry(key).or_insert_with(|| from_desc(&cd["vocab"])).clone()
+        };
         let vid = cd["vid"].as_u64().unwrap_or(0) as u32;
-        cfg_json.push(json!({"n": voc.n(), "eos": voc.eos, "canon": voc.canonical as u32}));
+        let mut cj = json!({"n": voc.n(), "eos": voc.eos, "canon": voc.canonical as u32});
+        if ep["log_vocab"].as_u64().unwrap_or(0) != 0 {
+            cj["tok"] = voc.to_json()["tok"].clone();
+        }
+        cfg_json.push(cj);
         match Cfg::new(voc, vid, cd) {
             Ok(c) => cfgs.push(c),
             Err(e) => {
@@ -189,7 +247,13 @@ fn run_episode(ep: &Value, epno: usize, cache: &mut HashMap<String, Vocab>, tr: 
             }
         }
     }
-    tr.ev(json!({"ev":"Init","ep":epno,"mode":ep["mode"],"gid":ep["gid"],"cfgs":cfg_json}));
+    let mut init = json!({"ev":"Init","ep":epno,"mode":ep["mode"],"gid":ep["gid"],"cfgs":cfg_json});
+    if let Some(o) = ep["init_extra"].as_object() {
+        for (k, v) in o {
+            init[k] = v.clone();
+        }
+    }
+    tr.ev(init);
     let ncfg = cfgs.len();
     let mut s = Session::new(cfgs, ep["gram"].clone(), tr);
     let steps = ep["steps"].as_u64().unwrap_or(20) as usize;
@@ -209,6 +273,12 @@ fn run_episode(ep: &Value, epno: usize, cache: &mut HashMap<String, Vocab>, tr: 
     let mut next_shadow = 50u32;
     let eos = s.cfg_of(1).vocab.eos;
     let eos_pct = ep["eos_pct"].as_u64().unwrap_or(15) as usize;
+    let mut hints = Hints {
+        all: ep["hints"].as_array().map(|a| a.iter().map(vh::json_bytes).filter(|h| !h.is_empty()).collect()).unwrap_or_default(),
+        cur: None,
+        pct: ep["hint_pct"].as_u64().unwrap_or(25) as usize,
+    };
+    let voc1 = s.cfg_of(1).vocab.clone();
     let mut n_commits = 0;
     let mut n_rollbacks = 0;
     let mut stopped_normally = false;
@@ -249,6 +319,7 @@ fn run_episode(ep: &Value, epno: usize, cache: &mut HashMap<String, Vocab>, tr: 
                 break;
             }
             hist.truncate(hist.len() - k);
+            hints.cur = None;
             // after a rollback: a private fresh engine replays the same history and follows
             if rng.chance(w.get("shadow_after_rollback"), 100) && shadows.len() < 2 {
                 let e = next_shadow;
@@ -338,7 +409,7 @@ fn run_episode(ep: &Value, epno: usize, cache: &mut HashMap<String, Vocab>, tr: 
             s.rollback(94, 0);
             s.drop_engine(94);
         }
-        let t = match pick(&mut side, &mut rng, eos, eos_pct) {
+        let t = match pick_h(&mut side, &mut rng, &voc1, eos_pct, &mut hints) {
             Some(t) => t,
             None => break,
         };
